@@ -19,6 +19,7 @@ EXPLANATION = (
     "array/Vec bodies in the zero-length world returns Ready(None) without reaching a child poll, an Indexer::iter call that "
     "divides by the length, or Pending; the 0-tuple body is straight-line Ready(None); (EXT) StreamExt::merge builds (self, other).")
 EXPLANATION += (' (CTOR) the entry point stores every operand, converted by into_stream only, as an input - none dropped, duplicated or reordered.')
+EXPLANATION += (' (ITEM, helpers) the utils::pin accessors are the standard slice / Vec accessors re-pinned element-wise. (EXT, surface) no inherent method shadows `merge`; no body takes a by-value combinator apart.')
 ASSUMPTIONS = [
     "C03.GUARD/MARK: an ended input is never polled again, so the counter counts distinct inputs",
     "the interleaving across inputs is unspecified by the property",
